@@ -802,6 +802,7 @@ func (d *refreshDebouncer) debounce() {
 	if d.stopped {
 		return
 	}
+	verifEvent("d_debounce", d, "", 0, nil)
 	d.timer.Reset(d.interval)
 }
 
@@ -809,6 +810,7 @@ func (d *refreshDebouncer) debounce() {
 func (d *refreshDebouncer) refreshNow() <-chan error {
 	d.mu.Lock()
 	defer d.mu.Unlock()
+	verifEvent("d_refresh_now", d, "", 0, nil)
 	if d.broadcaster == nil {
 		d.broadcaster = newErrorBroadcaster()
 		select {
@@ -827,8 +829,10 @@ func (d *refreshDebouncer) flusher() {
 		case <-d.timer.C:
 		case <-d.quit:
 		}
+		verifEvent("d_flusher_woke", d, "", 0, nil)
 		d.mu.Lock()
 		if d.stopped {
+			verifEvent("d_flusher_exit", d, "", 0, nil)
 			if d.broadcaster != nil {
 				d.broadcaster.stop()
 				d.broadcaster = nil
@@ -852,6 +856,7 @@ func (d *refreshDebouncer) flusher() {
 
 		curBroadcaster := d.broadcaster
 		d.broadcaster = nil
+		verifEvent("d_flusher_refresh", d, "", 0, nil)
 		d.mu.Unlock()
 
 		err := d.refreshFn()
@@ -868,9 +873,12 @@ func (d *refreshDebouncer) stop() {
 		return
 	}
 	d.stopped = true
+	verifEvent("d_stop_marked", d, "", 0, nil)
 	d.mu.Unlock()
+	verifEvent("d_stop_send", d, "", 0, nil)
 	d.quit <- struct{}{} // sync with flusher
 	close(d.quit)
+	verifEvent("d_stop_done", d, "", 0, nil)
 }
 
 // broadcasts an error to multiple channels (listeners)
